@@ -138,10 +138,41 @@ template<class A> static bool replay_script(const JV&rec,size_t shard,int how){
   if(!ok) g.violation(J().str("prop","C07").str("why","replayed TLC behaviour: "+why).raw("script",rec["script"].dump()).num("w",A::W).done());
   S.finish(); g.count(rec["script"].dump(),true); return ok; }
 
+// Systematic histories ("chains"): the OUTPUT of every producing operation (resolve, create-reference, normalize, make-owner) is handed
+// to every consuming operation in every operand position (resolve as reference / as base, create-reference as source / as base,
+// normalize, compare, observe), over texts chosen so that the produced object differs from a freshly parsed one in its internals
+// (merged paths ending in dot segments, dropped empty segments, guards put in front, owned vs borrowed text).
+template<class A> static void chain_episode(const std::vector<JV>&script,size_t shard,bool usemm){
+  Sess<A> S(5,3,usemm); S.shard=shard; g.event_to(shard,J().str("e","Reset").num("ns",5).num("nb",3).done()); std::string desc;
+  for(auto&a:script){ if(S.dead) break; if(!S.can(a)) continue; desc+=a.dump(); g.set_case(J().str("driver","session/chain").num("w",A::W).str("script",desc).done()); S.exec(a); }
+  S.finish(); g.count(desc,true); }
+static void chain_scripts(std::vector<std::vector<JV>>&out){
+  const char* bases[]={"s://h/a/b/c","s://h/a/b/","s:/a/b/c","s:a/b/c","s://u@h:1/a/b/c?q"};
+  const char* refs[]={"x/.","x/y/.","x/..","./","../x/.","x/./y/..","..//x","x//","./x:y","../../..","?q2","","/.//x","//g/p/.."};
+  const char* others[]={"s://h/a/b/x","s://h/a/b/x/y/z","s://h/a/b/","s://h/a/x","s:/a/b/x/y","s:a/b/x","s://h/a/b/x/"};
+  for(auto b:bases) for(auto r:refs) for(auto o:others) for(int prod=0;prod<3;++prod){ std::vector<JV> s;
+    s.push_back(with_text(act("buf",{{"i",1}}),T(b))); s.push_back(with_text(act("buf",{{"i",2}}),T(r))); s.push_back(with_text(act("buf",{{"i",3}}),T(o)));
+    s.push_back(act("parse",{{"s",1},{"i",1}})); s.push_back(act("parse",{{"s",2},{"i",2}})); s.push_back(act("parse",{{"s",3},{"i",3}}));
+    s.push_back(with_bool(act("add",{{"d",4},{"r",2},{"b",1}}),"o",false));                       // slot 4 = resolve(ref, base): the produced object
+    if(prod==1) s.push_back(act("norm",{{"s",4},{"m",63}})); if(prod==2) s.push_back(act("own",{{"s",4}}));
+    // consumers of slot 4, each into slot 5 (freed in between)
+    s.push_back(with_bool(act("rem",{{"d",5},{"s",3},{"b",4}}),"md",false)); s.push_back(act("free",{{"s",5}}));
+    s.push_back(with_bool(act("rem",{{"d",5},{"s",4},{"b",3}}),"md",false)); s.push_back(act("free",{{"s",5}}));
+    s.push_back(with_bool(act("rem",{{"d",5},{"s",4},{"b",1}}),"md",true));  s.push_back(act("free",{{"s",5}}));
+    s.push_back(with_bool(act("add",{{"d",5},{"r",2},{"b",4}}),"o",false));  s.push_back(act("free",{{"s",5}}));
+    s.push_back(with_bool(act("add",{{"d",5},{"r",4},{"b",3}}),"o",true));   s.push_back(act("free",{{"s",5}}));
+    s.push_back(act("eq",{{"a",4},{"b",3}})); s.push_back(act("norm",{{"s",4},{"m",8}})); s.push_back(act("eq",{{"a",4},{"b",3}}));
+    s.push_back(with_bool(act("rem",{{"d",5},{"s",3},{"b",4}}),"md",false));
+    out.push_back(s); } }
+
 VH_DRIVER(session){
   std::string mode=arg_value(argc,argv,"--mode","random"); long n=atol(arg_value(argc,argv,"--n",g.thorough?"20000":"1500")); Rng R(g.seed);
   if(mode=="random"){ std::vector<Text> pool=corpus_uris(R,false,300); int steps=atoi(arg_value(argc,argv,"--steps",g.thorough?"30":"20"));
     for(long i=0;i<n;++i){ if(g.pair){ Rng R2=R; AW(true,true,[&]{ random_episode<ApiA>(R,steps,(size_t)i,pool); },[&]{ random_episode<ApiW>(R2,steps,(size_t)i,pool); },(size_t)i); } else if(i%2) random_episode<ApiA>(R,steps,(size_t)i,pool); else random_episode<ApiW>(R,steps,(size_t)i,pool); if(i%501==0) g.sample(J().str("episode","random session").num("steps",steps).num("index",i).done()); }
+  } else if(mode=="chains"){ std::vector<std::vector<JV>> scripts; chain_scripts(scripts); size_t total=scripts.size(); double keep= (long)total>n? (double)n/total : 1.0;
+    for(size_t i=0;i<total;++i){ if(keep<1.0 && (R.next()%1000000)>=keep*1000000) continue; bool um=(i%5==0);
+      if(g.pair) AW(true,true,[&]{ chain_episode<ApiA>(scripts[i],i,um); },[&]{ chain_episode<ApiW>(scripts[i],i,um); },i); else if(i%2) chain_episode<ApiA>(scripts[i],i,um); else chain_episode<ApiW>(scripts[i],i,um);
+      if(i%211==0) g.sample(J().str("episode","chain").num("index",(long long)i).done()); }
   } else { auto lines=read_lines(arg_value(argc,argv,"--script","")); long k=0; for(auto&l:lines){ bool ok=true; JV rec=jparse_line(l,&ok); if(!ok||!rec.has("script")) continue; ++k;
       if(k%2) replay_script<ApiA>(rec,(size_t)k,(int)(k%3)); else replay_script<ApiW>(rec,(size_t)k,(int)(k%3)); if(k%997==0) g.sample(J().raw("script",rec["script"].dump()).done()); } }
   return 0;
